@@ -193,7 +193,10 @@ VerifyFails(e) ==
   \cup (IF On("C14") THEN F(P_C14v(e.ret, e.err, e.msg), "C14.verify") ELSE {})
   \cup (IF On("C19") THEN
           F(cb.ret # 0 => e.ret # 0, "C19.cbret")
-          \cup (IF Has(e, "nocbres") THEN F((pt.status = "ok" /\ ck.hascb /\ cb.ret = 0 /\ ~cb.touched) => ((e.ret = 0) <=> (e.nocbres.ret = 0)), "C19.verdict") ELSE {})
+          \* (a verify that met an allocation fault may refuse what it would accept; it never accepts what it would refuse)
+          \cup (IF Has(e, "nocbres") THEN F((pt.status = "ok" /\ ck.hascb /\ cb.ret = 0 /\ ~cb.touched) =>
+                                             (IF Has(e, "fault_site") THEN (e.ret = 0 => e.nocbres.ret = 0)
+                                              ELSE ((e.ret = 0) <=> (e.nocbres.ret = 0))), "C19.verdict") ELSE {})
           \cup F((pt.status = "ok" /\ cb.ret = 0 /\ AdmitDefined(cb.cfg.alg, cb.cfg.key) /\ ~Admit("checker", cb.cfg.alg, cb.cfg.key)) => e.ret # 0, "C19.admit")
         ELSE {})
   \cup (IF On("C12") /\ Has(e, "cmp") /\ e.cmp \in DOMAIN memo THEN F((memo[e.cmp] = 0) <=> (e.ret = 0), "C12.verdict") ELSE {})
@@ -263,6 +266,9 @@ ConfigFails(e) ==
               THEN F((e.ret = 0) <=> (SetCbCtxRet(IF e.e = "CSetCb" THEN checkers[e.c] ELSE builders[e.b]) = 0), Prop \o ".setcbctx")
               ELSE F(e.ret = 0, Prop \o ".setcb")
     [] e.e \in {"CErrClear", "BErrClear"} -> IF On("C14") THEN F(e.err = 0 /\ e.msg = 0, "C14.errclear") ELSE {}
+    [] e.e = "OpsThread" -> IF On("C12") THEN
+                              LET exp == IF e.name = NONE THEN ops ELSE OpsAfterSet(ops, e.name) IN
+                              F(e.seen = exp /\ e.cur = exp /\ (e.name # NONE => e.ret = OpsSetRet(e.name)), "C12.thread") ELSE {}
     [] e.e = "Ops" -> IF On("C12") THEN F(e.ret = OpsSetRet(e.name) /\ e.cur = OpsAfterSet(ops, e.name) /\ e.jwk = 1, "C12.setops") ELSE {}
     [] e.e = "OpsT" -> IF On("C12") THEN F(e.ret = OpsSetTRet(e.id) /\ e.cur = OpsAfterSetT(ops, e.id) /\ e.jwk = 1, "C12.setopst") ELSE {}
     [] e.e = "OpsEnv" -> IF On("C12") THEN F(e.cur = (IF e.env \in Providers THEN e.env ELSE "openssl"), "C12.env") ELSE {}
@@ -405,6 +411,7 @@ Apply(e) ==
   CASE e.e = "Clock" -> Clock(e.now)
     [] e.e = "Ops" -> ops' = e.cur /\ UNCHANGED <<now, rings, builders, checkers, toks, nextId>>
     [] e.e = "OpsT" -> ops' = e.cur /\ UNCHANGED <<now, rings, builders, checkers, toks, nextId>>
+    [] e.e = "OpsThread" -> ops' = e.cur /\ UNCHANGED <<now, rings, builders, checkers, toks, nextId>>
     [] e.e = "Load" -> IF e.retnull = 0 THEN Load(e.ring, NewItemsOf(e), e.seterr) ELSE UNCHANGED vars
     [] e.e = "ItemFree" -> ItemFree(e.ring, IF Has(e, "hi") /\ e.hi > 0 THEN 1000000 ELSE e.index, e.ret)
     [] e.e = "FreeBad" -> FreeBad(e.ring)
